@@ -33,5 +33,19 @@ SPEC = {
 }
 
 MUTATIONS = """
-(filled in after the dry-runs, see bottom of file)
+Dry-runs on scratch copies (VERIF_REPO=/var/tmp/mC20_<name> ./check C20 quick, inbox findings loaded):
+ includes_noslash   Includes: HasPrefix(that.PackageName, label.PackageName+"/") -> without +"/"
+                    exit 1: facts includesSlash=false breaks C20_facts_ok (30/32), model follows the fact (0 disagreements),
+                    oracle: VIOLATION includes-string-prefix  `inc 70:2e2e2e:- 70666f6f:78:-` (//p/... includes //pfoo:x)
+                    and experimental-string-prefix `exp 657870666f6f:78:- 657870`
+ pkg_dblslash       validatePackageName: dropped !strings.Contains(name, "//")
+                    exit 1: fact pkgForbidsDoubleSlash=false (31/32), 20 disagreements, oracle: parse-yields-invalid-package
+                    `rt 2f2f2e2f2f2e - -` (//.//. ) and explicit-label-misparsed
+ colon_dots         ParseBuildLabelParts: dropped `|| name == "..."` (//:... accepted)
+                    exit 1: facts unchanged (32/32), 20 disagreements, oracle: explicit-label-misparsed `rt 2f2f3a2e2e2e - -`
+ parent_trimprefix  Parent: strings.TrimLeft -> strings.TrimPrefix
+                    exit 1: facts unchanged, 4 disagreements, oracle: parent-deviates `par 70:5f5f782379:73`, matches-deviates
+ harmless           renamed idx->pos and swapped two independent assignments in ParseBuildLabelParts, swapped the two
+                    disjuncts of Includes, renamed the loop variables of validateSandbox        exit 0, 32/32, 0 disagreements
+ identity           no-op patch                                                                 exit 0
 """
